@@ -424,7 +424,7 @@ fn env_rec(w: &mut Writer, seed: u64, hist: &mut Vec<EnvCall>, depth_left: usize
 // ------------------------------------------------------------------------------------------
 
 fn work_dir(tag: &str) -> String {
-    let d = format!("/verif/.build/pytrace-{}-{}", tag, std::process::id());
+    let d = format!("{}/pytrace-{}-{}", std::env::var("VERIF_BUILD").unwrap_or_else(|_| "/verif/.build".into()), tag, std::process::id());
     let _ = std::fs::remove_dir_all(&d);
     std::fs::create_dir_all(&d).unwrap();
     d
